@@ -40,6 +40,50 @@ mod imp {
     unsafe fn run_avx2<F: MachFn>(f: &mut F) {
         f.call("avx2", AVX2::instance())
     }
+    /// A computation that also uses the direct vector-to-vector view conversions
+    /// (`u128xN -> u32x4xN / u64x2xN`), which only the x86-64 vector types offer.
+    pub trait ViewFn {
+        fn call<M: Machine>(&mut self, name: &'static str, m: M)
+        where
+            M::u128x1: Into<M::u32x4> + Into<M::u64x2>,
+            M::u128x2: Into<M::u32x4x2> + Into<M::u64x2x2>,
+            M::u128x4: Into<M::u32x4x4> + Into<M::u64x2x4>;
+    }
+    #[target_feature(enable = "sse2")]
+    unsafe fn views_sse2<F: ViewFn>(f: &mut F) {
+        f.call("sse2", SSE2::instance())
+    }
+    #[target_feature(enable = "ssse3")]
+    unsafe fn views_ssse3<F: ViewFn>(f: &mut F) {
+        f.call("ssse3", SSSE3::instance())
+    }
+    #[target_feature(enable = "sse4.1")]
+    #[target_feature(enable = "ssse3")]
+    unsafe fn views_sse41<F: ViewFn>(f: &mut F) {
+        f.call("sse41", SSE41::instance())
+    }
+    #[target_feature(enable = "avx")]
+    #[target_feature(enable = "sse4.1")]
+    #[target_feature(enable = "ssse3")]
+    unsafe fn views_avx<F: ViewFn>(f: &mut F) {
+        f.call("avx", AVX::instance())
+    }
+    #[target_feature(enable = "avx2")]
+    unsafe fn views_avx2<F: ViewFn>(f: &mut F) {
+        f.call("avx2", AVX2::instance())
+    }
+    pub fn run_views<F: ViewFn>(name: &str, f: &mut F) {
+        unsafe {
+            match name {
+                "sse2" => views_sse2(f),
+                "ssse3" => views_ssse3(f),
+                "sse41" => views_sse41(f),
+                "avx" => views_avx(f),
+                "avx2" => views_avx2(f),
+                _ => panic!("unknown machine {}", name),
+            }
+        }
+    }
     pub fn run<F: MachFn>(name: &str, f: &mut F) {
         assert!(
             std::is_x86_feature_detected!("avx2") && std::is_x86_feature_detected!("ssse3") && std::is_x86_feature_detected!("sse4.1"),
@@ -71,6 +115,8 @@ mod imp {
 }
 
 pub use imp::{run, NAMES};
+#[cfg(all(not(feature = "portable"), not(miri)))]
+pub use imp::{run_views, ViewFn};
 
 pub fn for_each<F: MachFn>(f: &mut F) {
     for n in NAMES {
